@@ -115,7 +115,7 @@ func genCase(r *fw.Rand, tier string) fw.Case {
 			anchors = append(anchors, t)
 			ops = append(ops, fmt.Sprintf("truncate %d", t))
 		case 4:
-			ops = append(ops, fmt.Sprintf("deletesg db0 rp0 %d recent", 1+r.Intn(6)))
+			ops = append(ops, fmt.Sprintf("deletesgid %d recent", 1+r.Intn(6)))
 		case 5:
 			ops = append(ops, fmt.Sprintf("updaterp db0 rp0 - - - %d 0", sgds[1+r.Intn(len(sgds)-1)]))
 		case 6:
